@@ -37,6 +37,9 @@ structure SClosed (now : Nat) (ok : Nat → Prop) (P : Eff → Prop) : Prop wher
   crashed : ∀ e l, P e → P { e with ps := { e.ps with crashed := l } }
   cancels : ∀ e l, P e → P { e with cancels := l }
   hookObs : ∀ e h, P e → P (addObs e (.hook now h))
+  /-- the hook tables and the `level` attributes of entities (written by `Act.addHook` / `Act.metric`) -/
+  aux : ∀ e hookOf late lateAtt level, P e →
+      P { e with ps := { e.ps with hookOf := hookOf, late := late, lateAtt := lateAtt, level := level } }
 
 section generic
 variable {now : Nat} {ok : Nat → Prop} {P : Eff → Prop}
@@ -133,6 +136,15 @@ theorem runAct_s (hc : SClosed now ok P) (e : Eff) (a : Act) (ha : bindOk ok a) 
   | fresh f => exact hc.bind e f [] 0 ha h
   | crash x => exact hc.crashed _ _ h
   | restore x => exact hc.crashed _ _ h
+  | addHook kind hook =>
+    simp only [runAct]
+    split
+    · unfold addHookTo
+      split
+      · exact hc.aux e _ _ _ _ h
+      · exact hc.aux e _ _ _ _ h
+    · exact h
+  | metric x abs v => exact hc.aux e _ _ _ _ h
 
 theorem acts_s (hc : SClosed now ok P) (acts : List Act) (e : Eff) (ha : ∀ a ∈ acts, bindOk ok a)
     (h : P e) : P (acts.foldl (runAct now) e) := by
